@@ -404,6 +404,9 @@ func fastaDrive(args []string) error {
 				if w <= long+1 || w == 4096 {
 					emitRead("layout", faFixedWidth(recs, w, false))
 					emitRead("layout", faFixedWidth(recs, w-1, true))
+					emitRead("layout", faFixedWidth(recs, w, true)) // (the CR is byte w+1 of the line, the LF byte w+2)
+					emitRead("layout", faFixedWidth(recs, w+1, true))
+					emitRead("layout", faFixedWidth(recs, w+1, false))
 				}
 			}
 		}
